@@ -156,13 +156,16 @@ func getFlateWriter(w io.Writer) *flate.Writer {
 	fw, ok := flateWriterPool.Get().(*flate.Writer)
 	if !ok {
 		fw, _ = flate.NewWriter(w, flate.BestSpeed)
+		vpool(1, 3, fw)
 		return fw
 	}
 	fw.Reset(w)
+	vpool(1, 3, fw)
 	return fw
 }
 
 func putFlateWriter(w *flate.Writer) {
+	vpool(2, 3, w)
 	flateWriterPool.Put(w)
 }
 
